@@ -1,6 +1,7 @@
 import Verif.Proofs.Peephole
 import Verif.Proofs.LangVM
 import Verif.Proofs.LangVMErr
+import Verif.Proofs.LangVM4
 /-!
 # C34 — The bytecode VM is observationally equivalent to the interpreter; peephole optimisation
 does not change outcomes
@@ -133,6 +134,101 @@ example : noCall (.and (.boolLit true) (.binary .lt (.binary .div (.intLit .int 
     subst this
     exact ⟨.int .int 0, rfl, rfl⟩
   · simp at ha
+
+open Verif.Model.Lang Verif.Model.Lang.VM in
+/-- **simulation_stmt_partial**: the value case for *call-free statements of L0* — `let`/`var`
+declaration, assignment to a variable, `if`/`else`, `while` (with `break` and `continue`, nested loops),
+`return`, expression statement (`noCallS`).  Let the evaluator run `st` in state `s` to the control flow
+`flow`, final state `s'` and trace `tr`; let `c` be the code compiled under `cs` (scope + next free slot),
+with the loop placeholders of `break`/`continue` resolved to the absolute positions `brk` (at or behind
+the end of `c`) and `cont` (at or before its start) as the enclosing `while` does (`resolve`; equal to the
+compiler's `patchLoop`, lemma `patchLoop_eq`), placed anywhere (`pre ++ … ++ post`); let the locals be
+related to the environment position by position (`Rel`: same names in the same order, each slot holds
+the variable's value, slots below `cs.next`).  Then the machine (`Exec`: big-step closure of `VM.step`
+with the emitted log lines; adequate for `runFrames` by `Exec.run`), started at the first instruction
+with any operand stack `stk`, emits exactly `tr` and
+* `flow = normal`: arrives just behind the last instruction, stack `stk`, with locals related to `s'.env`
+  under the compiler's new scope `cs'` (declarations extend it);
+* `flow = brk` / `cont`: arrives at `brk` / `cont`, stack `stk`, locals related to `s'.env`;
+* `flow = ret v`: the activation returns `v`.
+Missing for `C34_simulation`: the error case for statements (proved for expressions:
+`simulation_expr_err_partial`), invocations inside statements and `??` (so every trace here is in fact
+empty), assignment to fields / elements, swap, L1/L2. -/
+theorem simulation_stmt_partial (p : Program) (tbl : Table) (n : Nat) (retTy : Ty) (st : Stmt)
+    (s s' : State) (flow : Flow) (tr : List String)
+    (h : exec p n retTy st s = ⟨.ok flow, s', tr⟩) (hnc : noCallS st = true)
+    (cs cs' : CState) (c : List Instr) (hc : compileStmt retTy cs st = some (c, cs'))
+    (locals : Locals) (hrel : Rel locals cs.next cs.sc s.env)
+    (pre post : List Instr) (stk : List Value) (brk cont : Nat)
+    (hb : pre.length + c.length ≤ brk) (hcn : cont ≤ pre.length) :
+    let code := pre ++ resolve brk cont pre.length c ++ post
+    (flow = .normal → ∃ l', Exec tbl ⟨code, pre.length, stk, locals⟩ tr (.at ⟨code, pre.length + c.length, stk, l'⟩) ∧
+        Rel l' cs'.next cs'.sc s'.env) ∧
+    (flow = .brk → ∃ l' ext, Exec tbl ⟨code, pre.length, stk, locals⟩ tr (.at ⟨code, brk, stk, l'⟩) ∧
+        Rel l' cs'.next (ext ++ cs.sc) s'.env) ∧
+    (flow = .cont → ∃ l' ext, Exec tbl ⟨code, pre.length, stk, locals⟩ tr (.at ⟨code, cont, stk, l'⟩) ∧
+        Rel l' cs'.next (ext ++ cs.sc) s'.env) ∧
+    (∀ v, flow = .ret v → Exec tbl ⟨code, pre.length, stk, locals⟩ tr (.ret v)) := by
+  intro code
+  have sim := (sim_all p tbl n).1 retTy st s flow s' tr h hnc cs c cs' hc locals hrel code pre post stk brk cont
+    pre.length rfl rfl hb hcn
+  refine ⟨?_, ?_, ?_, ?_⟩
+  · intro hf; subst hf
+    obtain ⟨l', e, ext, hr, hsc⟩ := sim
+    exact ⟨l', e, by rw [hsc rfl]; exact hr⟩
+  · intro hf; subst hf
+    obtain ⟨l', e, ext, hr, _⟩ := sim
+    exact ⟨l', ext, e, hr⟩
+  · intro hf; subst hf
+    obtain ⟨l', e, ext, hr, _⟩ := sim
+    exact ⟨l', ext, e, hr⟩
+  · intro v hf; subst hf; exact sim
+
+open Verif.Model.Lang Verif.Model.Lang.VM in
+-- non-vacuity: `while i < 3 { if i == 2 { break }; i = i + 1 }` with `i = 0` in slot 0 is call-free,
+-- compiles, the locals are related to the environment, and the evaluator completes normally (two
+-- iterations, then `break`)
+example :
+    let st : Stmt := .while (.binary .lt (.var "i") (.intLit .int 3))
+      [.ite (.binary .eq (.var "i") (.intLit .int 2)) [.break_] none,
+       .assign (.var "i") (.int .int) (.binary .add (.var "i") (.intLit .int 1))]
+    noCallS st = true ∧ (compileStmt .void ⟨[("i", 0)], 1⟩ st).isSome = true ∧
+    Rel [(0, .int .int 0)] 1 [("i", 0)] [("i", .int .int 0)] ∧
+    (match (exec ⟨[], []⟩ 40 .void st ⟨[("i", .int .int 0)]⟩).out with | .ok .normal => true | _ => false) = true := by
+  refine ⟨by decide, by decide, .cons (.nil 0) rfl (by omega), by decide⟩
+
+open Verif.Model.Lang Verif.Model.Lang.VM in
+/-- **simulation_body_partial**: a whole activation on the step-counting machine.  If the evaluator runs
+a call-free function body (a block, `execBlock`) to `return v` — or to its end, then `v = void` — with
+trace `tr`, then `runFrames` (the machine of `runVM`), started on the compiled body (no unresolved loop
+placeholder, i.e. no `break`/`continue` outside a loop) with locals related to the initial environment
+and no callers, returns the same value `v` with the same trace, for some amount of fuel.
+Missing for `C34_simulation` (`runVM (compile p) = run p`): invocations (binding of arguments to
+parameter slots, several activations, the trace of logging calls), the error outcomes of statements,
+`??`, L1/L2. -/
+theorem simulation_body_partial (p : Program) (tbl : Table) (n : Nat) (retTy : Ty) (ss : List Stmt)
+    (s s' : State) (flow : Flow) (tr : List String) (v : Value)
+    (h : execBlock p n retTy ss s = ⟨.ok flow, s', tr⟩) (hnc : noCallB ss = true)
+    (hv : flow = .ret v ∨ (flow = .normal ∧ v = .void))
+    (cs cs' : CState) (c : List Instr) (hc : compileBlock retTy cs ss = some (c, cs')) (hnm : noMarks c = true)
+    (locals : Locals) (hrel : Rel locals cs.next cs.sc s.env) :
+    ∃ m, runFrames tbl m ⟨c, 0, [], locals⟩ [] [] = ⟨.ok v, ⟨[]⟩, tr⟩ := by
+  obtain ⟨m, hm⟩ := (sim_body p tbl n retTy ss s s' flow tr v h hnc hv cs cs' c hc hnm locals hrel).run [] [] 0
+  exact ⟨m, by simpa [finish] using hm⟩
+
+open Verif.Model.Lang Verif.Model.Lang.VM in
+-- non-vacuity: the body `var i = 0; while true { i = i + 1; if i == 3 { return i } }` is call-free,
+-- compiles to placeholder-free code, and the evaluator returns 3
+example :
+    let ss : List Stmt := [.decl false "i" (.int .int) (.intLit .int 0),
+      .while (.boolLit true)
+        [.assign (.var "i") (.int .int) (.binary .add (.var "i") (.intLit .int 1)),
+         .ite (.binary .eq (.var "i") (.intLit .int 3)) [.ret (some (.var "i"))] none]]
+    noCallB ss = true ∧
+    (match compileBlock (.int .int) ⟨[], 0⟩ ss with | some (c, _) => noMarks c | none => false) = true ∧
+    Rel [] 0 [] [] ∧
+    (match (execBlock ⟨[], []⟩ 40 (.int .int) ss ⟨[]⟩).out with | .ok (.ret (.int _ 3)) => true | _ => false) = true := by
+  refine ⟨by decide, by decide, .nil 0, by decide⟩
 
 -- non-vacuity: a jump over two rewritten windows, a window at a jump target left alone
 example : optimize exCode = .ok exOpt := by rfl
